@@ -174,11 +174,18 @@ class Interp:
             raise NotModelled("payload op")
         if isinstance(op, ast.Div):
             if is_symt(a) or is_symt(b): return to_z3(a) / to_z3(b)
-            return Fraction(a) / Fraction(b)
+            # Python semantics: true division of concrete numbers is IEEE double division (1 / 3 * 5 - 2 / 3 is not 1);
+            # the emitted programs test such values with c % 1 == 0, so exact rationals would misrepresent them
+            if isinstance(a, Fraction): a = float(a)
+            if isinstance(b, Fraction): b = float(b)
+            r = a / b
+            return int(r) if r.is_integer() else r     # 2.0 and 2 are the same coordinate
         if is_symt(a) or is_symt(b): a, b = to_z3(a), to_z3(b)
-        if isinstance(op, ast.Add): return a + b
-        if isinstance(op, ast.Sub): return a - b
-        if isinstance(op, ast.Mult): return a * b
-        if isinstance(op, ast.FloorDiv): return a // b
-        if isinstance(op, ast.Mod): return a % b
-        raise NotModelled("binop")
+        if isinstance(op, ast.Add): r = a + b
+        elif isinstance(op, ast.Sub): r = a - b
+        elif isinstance(op, ast.Mult): r = a * b
+        elif isinstance(op, ast.FloorDiv): r = a // b
+        elif isinstance(op, ast.Mod): r = a % b
+        else: raise NotModelled("binop")
+        if isinstance(r, float) and r.is_integer(): r = int(r)     # 3.0 and 3 are the same coordinate
+        return r
